@@ -23,6 +23,12 @@ pub struct Config {
     pub klen: usize,
     pub ra: String,
     pub rb: String,
+    /// scalar r' such that P_A + [x-bar(R')]R' = O for R' = [r']G (the key d_A was crafted for it); adversary point choice 6
+    #[serde(default)]
+    pub cancel_a: Option<String>,
+    /// the same for P_B
+    #[serde(default)]
+    pub cancel_b: Option<String>,
 }
 
 #[derive(Serialize, Deserialize, Clone, Debug)]
@@ -33,13 +39,15 @@ pub struct Case {
     pub tag: String,
 }
 
-pub const POINT_ADV: [&str; 6] = ["pass", "rerandomised-representation", "negated", "doubled", "G", "off-curve(y+1)"];
-pub const HASH_ADV: [&str; 4] = ["pass", "flip-first-bit", "flip-last-bit", "all-zero"];
+pub const POINT_ADV: [&str; 8] = ["pass", "rerandomised-representation", "negated", "doubled", "G", "off-curve(y+1)", "point-cancelling-the-peer-key", "point-at-infinity"];
+pub const HASH_ADV: [&str; 5] = ["pass", "flip-first-bit", "flip-last-bit", "all-zero", "forged-for-zero-shared-point"];
 
-fn adv_point(p: &Point, code: u16, seed: u64) -> Point {
+fn adv_point(p: &Point, code: u16, seed: u64, cancel: Option<&String>) -> Point {
     let r = ref_point(p);
     let pr = sm2::params();
     match code {
+        6 => lib_point_affine(&sm2::g_mul(&hb(cancel.expect("cancel scalar")))),
+        7 => lib_point(&None, &BigUint::one()),
         0 => *p,
         1 => lib_point(&r, &SplitMix::new(seed, "c15lambda").nonzero_below(&pr.p)),
         2 => lib_point_affine(&pr.curve.neg(&r)),
@@ -58,6 +66,7 @@ fn adv_hash(h: &[u8; 32], code: u16) -> [u8; 32] {
         1 => o[0] ^= 0x80,
         2 => o[31] ^= 0x01,
         3 => o = [0; 32],
+        4 => {} // replaced by the caller (needs the transcript)
         // 100 + i: flip bit i
         c => {
             let i = (c - 100) as usize;
@@ -130,24 +139,34 @@ pub fn eval(ctx: &Ctx, case: &Case) {
         return;
     }
     // --- deliver R_A to B
-    let ra_del = adv_point(&ra_pt, adv[0], ctx.seed);
-    let ra_del_ref: Pt = if adv[0] == 5 { None } else { ref_point(&ra_del) };
-    let ra_tampered = adv[0] == 5 || ra_del_ref != ref_point(&ra_pt);
+    let ra_del = adv_point(&ra_pt, adv[0], ctx.seed, cfg.cancel_a.as_ref());
+    let bad0 = adv[0] == 5 || adv[0] == 7;
+    let ra_del_ref: Pt = if bad0 { None } else { ref_point(&ra_del) };
+    let ra_tampered = bad0 || ra_del_ref != ref_point(&ra_pt);
     let mut q = vec![cand(&rb)];
     q.extend(fill(&mut g));
     let (r2, log2) = with_rng(q, || bob.exchange_2(&ra_del));
     ctx.call();
     ctx.trace();
+    if adv[0] == 6 {
+        // P_A + [x-bar]R' = O: the shared point is the point at infinity, B must report failure (step B5)
+        match r2 {
+            Guard::Done(Err(_)) => ctx.outcome("refused/exchange_2/shared-point-infinity"),
+            Guard::Done(Ok(_)) => ctx.violation("Exchange::exchange_2", &format!("shared-point-at-infinity-accepted/{}", tag), String::new(), cj()),
+            Guard::Panic(p) => ctx.violation("Exchange::exchange_2", &format!("panic/{}/shared-point-infinity", panic_site(&p)), p, cj()),
+        }
+        return;
+    }
     let (rb_pt, sb) = match r2 {
         Guard::Done(Ok(v)) => {
-            if adv[0] == 5 {
-                ctx.violation("Exchange::exchange_2", &format!("off-curve-R_A-accepted/{}", tag), String::new(), cj());
+            if bad0 {
+                ctx.violation("Exchange::exchange_2", &format!("R_A={}-accepted/{}", POINT_ADV[adv[0] as usize], tag), String::new(), cj());
                 return;
             }
             v
         }
-        Guard::Done(Err(_)) if adv[0] == 5 => {
-            ctx.outcome("refused/exchange_2/off-curve-R_A");
+        Guard::Done(Err(_)) if bad0 => {
+            ctx.outcome("refused/exchange_2/invalid-R_A");
             return;
         }
         other => {
@@ -187,10 +206,19 @@ pub fn eval(ctx: &Ctx, case: &Case) {
         return;
     }
     // --- deliver (R_B, S_B) to A
-    let rb_del = adv_point(&rb_pt, adv[1], ctx.seed ^ 1);
-    let rb_del_ref: Pt = if adv[1] == 5 { None } else { ref_point(&rb_del) };
-    let rb_tampered = adv[1] == 5 || rb_del_ref != ref_point(&rb_pt);
-    let sb_del = adv_hash(&sb, adv[2]);
+    let rb_del = adv_point(&rb_pt, adv[1], ctx.seed ^ 1, cfg.cancel_b.as_ref());
+    let bad1 = adv[1] == 5 || adv[1] == 7;
+    let rb_del_ref: Pt = if bad1 { None } else { ref_point(&rb_del) };
+    let rb_tampered = bad1 || rb_del_ref != ref_point(&rb_pt);
+    let mut sb_del = adv_hash(&sb, adv[2]);
+    if adv[2] == 4 {
+        // what anyone can compute if A takes the affine form of O to be (0, 0): Hash(02 || 0^32 || Hash(0^32 || Z_A || Z_B || R_A || R_B'))
+        let (x1, y1) = sm2::xy_bytes(&ref_point(&ra_pt));
+        let (x2, y2) = sm2::xy_bytes(&ref_point(&rb_del));
+        let z32 = [0u8; 32];
+        let inner = refmodels::sm3::sm3_cat(&[&z32, &za, &zb, &x1, &y1, &x2, &y2]);
+        sb_del = refmodels::sm3::sm3_cat(&[&[0x02], &z32, &inner]);
+    }
     let sb_tampered = sb_del != sb;
     let r3 = guard(|| alice.exchange_3(&rb_del, sb_del));
     ctx.call();
@@ -237,8 +265,8 @@ pub fn eval(ctx: &Ctx, case: &Case) {
     }
     // --- deliver S_A (and R_A again) to B
     let sa_del = adv_hash(&sa, adv[3]);
-    let ra2_del = adv_point(&ra_pt, adv[4], ctx.seed ^ 2);
-    let ra2_tampered = adv[4] == 5 || ref_point(&ra2_del) != ref_point(&ra_pt);
+    let ra2_del = adv_point(&ra_pt, adv[4], ctx.seed ^ 2, cfg.cancel_a.as_ref());
+    let ra2_tampered = adv[4] == 5 || adv[4] == 7 || ref_point(&ra2_del) != ref_point(&ra_pt);
     let r4 = guard(|| bob.exchange_4(sa_del, &ra2_del));
     ctx.call();
     let must_fail = sa_del != sa || ra2_tampered;
@@ -261,12 +289,12 @@ pub fn replay(ctx: &Arc<Ctx>, v: &Value) {
 fn next_choices(adv: &[u16]) -> Vec<u16> {
     let honest_pt = |c: u16| c <= 1;
     match adv.len() {
-        0 => (0..6).collect(),
+        0 => vec![0, 1, 2, 3, 4, 5, 7],
         1 => {
-            if adv[0] == 5 {
+            if adv[0] == 5 || adv[0] == 7 {
                 vec![]
             } else {
-                (0..6).collect()
+                vec![0, 1, 2, 3, 4, 5, 7]
             }
         }
         2 => (0..4).collect(),
@@ -277,7 +305,7 @@ fn next_choices(adv: &[u16]) -> Vec<u16> {
                 vec![]
             }
         }
-        4 => (0..6).collect(),
+        4 => vec![0, 1, 2, 3, 4, 5, 7],
         _ => vec![],
     }
 }
@@ -285,7 +313,7 @@ fn next_choices(adv: &[u16]) -> Vec<u16> {
 pub fn run(ctx: &Arc<Ctx>) {
     refmodels::selftest::run(&["sm3", "sm2"]).unwrap_or_else(|e| ctx.machinery_error(format!("reference self-test failed: {}", e)));
     let n = sm2::params().n.clone();
-    ctx.set_rule("stateright BFS over all man-in-the-middle choice sequences on the real Exchange objects: R_A->B, R_B->A in {pass, re-randomised Jacobian representation, -R, 2R, G, off-curve}, S_B->A, S_A->B in {pass, first bit flipped, last bit flipped, all-zero}, R_A handed to exchange_4 in the 6 point choices; every subset of the messages altered x every kind, per configuration (key pairs {Annex, (1,n-2), (n-2,2), seeded} x IDs x klen). Honest paths additionally for every klen 1..=200 and the nonce product r_A x r_B; every single-bit flip of S_B and of S_A on otherwise honest runs. Invariant: honest deliveries (incl. re-randomised) give both sides the reference K (w=127), S_B, S_A (one-byte tags) and exchange_4 = true; any altered message makes the receiving step fail; off-curve points are refused by the step that receives them; a panic is a violation. ephemeral scalars fixed through the RNG seam.");
+    ctx.set_rule("stateright BFS over all man-in-the-middle choice sequences on the real Exchange objects: R_A->B, R_B->A in {pass, re-randomised Jacobian representation, -R, 2R, G, off-curve, point at infinity}, S_B->A, S_A->B in {pass, first bit flipped, last bit flipped, all-zero}, R_A handed to exchange_4 in the 6 point choices; every subset of the messages altered x every kind, per configuration (key pairs {Annex, (1,n-2), (n-2,2), seeded} x IDs x klen). Honest paths additionally for every klen 1..=200 and the nonce product r_A x r_B; every single-bit flip of S_B and of S_A on otherwise honest runs; keys crafted so that the peer's P + [x-bar]R' is the point at infinity for an adversary-chosen R' (the shared point is O: both roles must report failure, also against an S_B forged for a zero point). Invariant: honest deliveries (incl. re-randomised) give both sides the reference K (w=127), S_B, S_A (one-byte tags) and exchange_4 = true; any altered message makes the receiving step fail; off-curve points are refused by the step that receives them; a panic is a violation. ephemeral scalars fixed through the RNG seam.");
     let mut g = SplitMix::new(ctx.seed, "c15");
     let annex = ("81EB26E941BB5AF16DF116495F90695272AE2CD63D6C4AE1678418BE48230029", "785129917D45A9EA5437A59356B82338EAADDA6CEB199088F14AE10DEFA229B5", "D4DE15474DB74D06491C440D305E012400990F3E390C7E87153C12DB2EA60BB3", "7E07124814B309489125EAED101113164EBF0F3458C5BD88335C1F9D596243D6");
     let seeded: Vec<BigUint> = (0..4).map(|_| g.nonzero_below(&(&n - 2u32))).collect();
@@ -294,12 +322,13 @@ pub fn run(ctx: &Arc<Ctx>) {
         (hexbig(&BigUint::one()), hexbig(&(&n - 2u32)), hexbig(&seeded[0]), hexbig(&seeded[1]), Some("alice123@qq.com".into()), Some("bob456@qq.com".into())),
         (hexbig(&(&n - 2u32)), hexbig(&BigUint::from(2u32)), hexbig(&seeded[1]), hexbig(&seeded[2]), Some("".into()), Some("".into())),
         (hexbig(&seeded[2]), hexbig(&seeded[3]), hexbig(&seeded[3]), hexbig(&seeded[0]), None, Some("bob456@qq.com".into())),
+        (hexbig(&seeded[3]), hexbig(&seeded[1]), hexbig(&seeded[0]), hexbig(&seeded[2]), Some("用户甲".into()), Some("Zoë@例.cn".into())),
     ];
     let klens: Vec<usize> = ctx.tier.pick(vec![16], vec![1, 16, 33]);
     let mut cfgs: Vec<Config> = Vec::new();
     for (da, db, ra, rb, ida, idb) in &keypairs {
         for k in &klens {
-            cfgs.push(Config { da: da.clone(), db: db.clone(), ida: ida.clone(), idb: idb.clone(), klen: *k, ra: ra.clone(), rb: rb.clone() });
+            cfgs.push(Config { da: da.clone(), db: db.clone(), ida: ida.clone(), idb: idb.clone(), klen: *k, ra: ra.clone(), rb: rb.clone(), cancel_a: None, cancel_b: None });
         }
     }
     ctx.note_bound(format!("{} tamper configurations", cfgs.len()));
@@ -321,13 +350,13 @@ pub fn run(ctx: &Arc<Ctx>) {
     let mut cases: Vec<Case> = Vec::new();
     for klen in 1..=200usize {
         let (da, db, ra, rb, ida, idb) = &keypairs[klen % keypairs.len()];
-        cases.push(Case { cfg: Config { da: da.clone(), db: db.clone(), ida: ida.clone(), idb: idb.clone(), klen, ra: ra.clone(), rb: rb.clone() }, adv: vec![(klen % 2) as u16, ((klen / 2) % 2) as u16, 0, 0, ((klen / 4) % 2) as u16], tag: format!("honest/klen%32={}", if klen % 32 == 0 { "0" } else { "!0" }) });
+        cases.push(Case { cfg: Config { da: da.clone(), db: db.clone(), ida: ida.clone(), idb: idb.clone(), klen, ra: ra.clone(), rb: rb.clone(), cancel_a: None, cancel_b: None }, adv: vec![(klen % 2) as u16, ((klen / 2) % 2) as u16, 0, 0, ((klen / 4) % 2) as u16], tag: format!("honest/klen%32={}", if klen % 32 == 0 { "0" } else { "!0" }) });
     }
     let ks = scalar_alphabet(&n, ctx.seed, "c15k", 1);
     for (an, a) in &ks {
         for (bn, b) in &ks {
             let (da, db, _, _, ida, idb) = &keypairs[0];
-            cases.push(Case { cfg: Config { da: da.clone(), db: db.clone(), ida: ida.clone(), idb: idb.clone(), klen: 16, ra: hexbig(a), rb: hexbig(b) }, adv: vec![0, 0, 0, 0, 0], tag: { let _ = (an, bn); "honest/nonce-product".to_string() } });
+            cases.push(Case { cfg: Config { da: da.clone(), db: db.clone(), ida: ida.clone(), idb: idb.clone(), klen: 16, ra: hexbig(a), rb: hexbig(b), cancel_a: None, cancel_b: None }, adv: vec![0, 0, 0, 0, 0], tag: { let _ = (an, bn); "honest/nonce-product".to_string() } });
         }
     }
     // every single-bit flip of S_B (A must refuse) and of S_A (B must not confirm) on otherwise honest runs
@@ -335,6 +364,23 @@ pub fn run(ctx: &Arc<Ctx>) {
         for bit in 0..256u16 {
             cases.push(Case { cfg: cfgs[ci * klens.len()].clone(), adv: vec![0, 0, 100 + bit], tag: "bitflip-sweep".into() });
             cases.push(Case { cfg: cfgs[ci * klens.len()].clone(), adv: vec![0, 1, 0, 100 + bit, 0], tag: "bitflip-sweep".into() });
+        }
+    }
+    // degenerate shared point: a key crafted so that P + [x-bar(R')]R' = O for an adversary-chosen R' = [r']G
+    {
+        let rp = g.nonzero_below(&(&n - 2u32));
+        let rpt = sm2::g_mul(&rp);
+        let d_crafted = (&n - (sm2::xbar(&rpt.as_ref().unwrap().0) * &rp) % &n) % &n;
+        if d_crafted >= BigUint::one() && d_crafted <= &n - 2u32 {
+            let other = hexbig(&seeded[1]);
+            // A's key crafted: B receives R' as R_A and must fail in exchange_2
+            let ca = Config { da: hexbig(&d_crafted), db: other.clone(), ida: None, idb: None, klen: 16, ra: hexbig(&seeded[2]), rb: hexbig(&seeded[3]), cancel_a: Some(hexbig(&rp)), cancel_b: None };
+            cases.push(Case { cfg: ca, adv: vec![6], tag: "degenerate".into() });
+            // B's key crafted: A receives R' as R_B (with the honest S_B, and with an S_B forged for the zero point) and must fail in exchange_3
+            let cb = Config { da: other, db: hexbig(&d_crafted), ida: None, idb: None, klen: 16, ra: hexbig(&seeded[2]), rb: hexbig(&seeded[3]), cancel_a: None, cancel_b: Some(hexbig(&rp)) };
+            for h in [0u16, 4] {
+                cases.push(Case { cfg: cb.clone(), adv: vec![0, 6, h], tag: "degenerate".into() });
+            }
         }
     }
     ctx.sample(serde_json::to_value(&cases[15]).unwrap());
